@@ -36,11 +36,11 @@ ObsInit == [call |-> EmptyFun, sub |-> EmptyFun,
             inWriter |-> EmptyFun,   \* library connection -> writer kind currently inside its write-lock section ("" if none)
             lockViol |-> 0,          \* overlapping write sections / sections entered without the lock held
             retained |-> 0,          \* library goroutines still labelled with a dead server connection at quiescence
-            revBlocked |-> {},       \* reverse calls that blocked (or succeeded) after their client's connection was gone
+            revBlocked |-> {}, revWrong |-> {},       \* reverse calls that blocked (or succeeded) after their client's connection was gone
             scName |-> "",           \* name of the scenario (from the reset event)
             crashed |-> FALSE,       \* the process hosting the code under test died
             ctxMissing |-> {},       \* calls whose handler waited in vain for its context to be cancelled
-            cfgErrors |-> FALSE, cfgNoReconnect |-> FALSE, cfgHooks |-> FALSE,   \* client configuration of the scenario (from the reset event)
+            cfgErrors |-> FALSE, cfgNoReconnect |-> FALSE, cfgHooks |-> FALSE, cfgReverse |-> FALSE,   \* client configuration of the scenario (from the reset event)
             backoffSeen |-> FALSE,   \* a backoff delay was computed since the last dial
             badBackoff |-> 0,        \* redials not preceded by their own backoff delay, or with a delay outside [min, max] / below the schedule
             redialsNoReconnect |-> 0,
@@ -105,6 +105,7 @@ ObsStep(o, e) ==
                    !.inWriter = Upd(o.inWriter, e.conn, e.w)]
     [] e.ev = "h:wl.exit" -> [o EXCEPT !.inWriter = Upd(o.inWriter, e.conn, "")]
     [] e.ev = "ConnGoroutines" -> [o EXCEPT !.retained = @ + e.n + (IF e.connEnded THEN 0 ELSE 1)]
+    [] e.ev = "RevStart" -> [o EXCEPT !.revWrong = IF Call(o, e.call).cli # "" /\ Call(o, e.call).cli # e.peer THEN @ \cup {e.call} ELSE @]
     [] e.ev = "RevCallEnd" -> [o EXCEPT !.revBlocked = IF ~e.failed THEN @ \cup {e.call} ELSE @]
     [] e.ev = "ProcessExit" -> [o EXCEPT !.crashed = TRUE]
     [] e.ev = "CtxMissing"  -> [o EXCEPT !.ctxMissing = @ \cup {e.call}]
@@ -199,8 +200,16 @@ Always_C13(o) ==
 Always_C15(o) ==
   (IF o.retained > 0 THEN {<<"C15", "goroutines-retained-for-dead-connection", 0>>} ELSE {})
   \cup {<<"C15", "handler-context-not-cancelled-at-connection-end", t>> : t \in IF o.scName = "c15.end" THEN o.ctxMissing ELSE {}}
-\* C16: a reverse call made after its client is gone returns an error, it neither blocks nor succeeds
-Always_C16(o) == {<<"C16", "reverse-call-blocked-after-connection-loss", t>> : t \in o.revBlocked}
+\* C16: a reverse call reaches exactly the client whose request its handler serves; after that client is gone it returns an error
+\* (it neither blocks nor succeeds); without the server option, or over HTTP, there is no reverse client
+Always_C16(o) ==
+  {<<"C16", "reverse-call-blocked-after-connection-loss", t>> : t \in o.revBlocked}
+  \cup {<<"C16", "reverse-call-answered-by-another-client:" \o o.call[t].detail, t>> :
+          t \in {t \in Calls(o) : o.call[t].kind = "callback" /\ o.call[t].outcome = "ok" /\ o.call[t].detail \notin {o.call[t].cli, "no-reverse-client"}}}
+  \cup {<<"C16", "reverse-client-presence:" \o o.call[t].detail, t>> :
+          t \in {t \in Calls(o) : o.call[t].kind = "callback" /\ o.call[t].outcome = "ok"
+                                  /\ ((o.call[t].detail = "no-reverse-client") # (o.call[t].tr = "http" \/ ~o.cfgReverse))}}
+  \cup {<<"C16", "reverse-handler-ran-on-another-client", t>> : t \in o.revWrong}
 
 Always(o) == Always_C15(o) \cup Always_C16(o) \cup Always_C13(o) \cup Always_Crash(o) \cup Always_C06b(o) \cup Always_C05(o) \cup Always_C05b(o) \cup Always_C02(o) \cup Always_C04(o) \cup Always_C06(o) \cup Always_C07(o) \cup Always_C08(o) \cup Always_C14(o) \cup Always_C18(o)
 
